@@ -321,6 +321,53 @@ def explore_powers(ck, syms, ns):
                                  f"{c}: {type(exc).__name__}: {exc}", c)
 
 
+RATES = {'EUR': F(1), 'CLF': F(1, 25), 'JPY': F(125), 'TND': F(16, 5)}
+
+
+def explore_converted(ck):
+    """Money with an active converter (1 EUR = 0.04 CLF = 125 JPY = 3.2 TND,
+    all cross rates exact): sums, differences and conversions across
+    currencies are the exact result rounded once."""
+    from datetime import date
+    from quantity.money import Money, MoneyConverter
+    w, st = ck.w, ck.st
+    conv = MoneyConverter(w.units['EUR'], lambda: date(2020, 3, 15))
+    conv.update(None, [(w.units[c], r, 1) for c, r in RATES.items()
+                       if c != 'EUR'])
+    base = {'world': ck.world, 'mode': ck.mode, 'converter': True}
+    with conv:
+        for c1 in RATES:
+            u1 = w.units[c1]
+            g1 = ck.grid(u1)
+            for c2 in RATES:
+                if c1 == c2:
+                    continue
+                u2 = w.units[c2]
+                g2 = ck.grid(u2)
+                r21 = RATES[c1] / RATES[c2]       # 1 c2 = r21 c1
+                for t1 in (F(0), F(1), F(-3), F(7)):
+                    for t2 in (F(1), F(3), F(-5), F(11), F(250)):
+                        x, y = t1 * g1, t2 * g2
+                        q1, q2 = Money(x, u1), Money(y, u2)
+                        c = dict(base, op='add', unit=c1, x=str(x),
+                                 unit2=c2, y=str(y))
+                        st.state((ck.world, 'conv', c1, c2, t1, t2),
+                                 nontrivial=True)
+                        try:
+                            ck.judge('add', q1 + q2, x + y * r21, c, u1)
+                            ck.judge('sub', q1 - q2, x - y * r21, c, u1)
+                            c = dict(c, op='convert')
+                            ck.judge('convert', q2.convert(u1), y * r21, c,
+                                     u1)
+                            ck.judge('ctor-text-convert',
+                                     Money(f"{q2.amount} {c2}", u1), y * r21,
+                                     c, u1)
+                        except Exception as exc:
+                            st.violation('C05:converted:raises',
+                                         f"{c}: {type(exc).__name__}: {exc}",
+                                         c)
+
+
 # ---------------------------------------------------------------------------
 # worlds
 
@@ -377,6 +424,7 @@ def run_world(p):
         explore_products(ck, [('*', 'EUR/kg', 'g'), ('*', 'g', 'EUR/kg'),
                               ('*', 'JPY/kg', 'lb'), ('*', 'oz', 'JPY/kg'),
                               ('*', 'EUR/kg', 'kg')], 'Money')
+        explore_converted(ck)
     else:
         w, err = build_world(USER)
         if err is not None:
